@@ -149,6 +149,11 @@ def build(cfg, src):
         if cfg.get("zero_rtt"):
             zs = src.bytes("early_data", cfg.get("data_len", 2))
             pk.append(Q.long_packet(C.keys["early"], "0rtt", odcid, c_cid, nxt(C, "app"), pn_len("c_0rtt"), stream(0, zs)))
+            if cfg.get("zero_rtt") == 2:
+                # a second 0-RTT packet (next packet number) in the same datagram
+                zs2 = src.bytes("early_data2", cfg.get("data_len", 2))
+                pk.append(Q.long_packet(C.keys["early"], "0rtt", odcid, c_cid, nxt(C, "app"), pn_len("c_0rtt"), stream(0, zs2, offset=len(zs))))
+                zs = cat(zs, zs2)
         emit(False, pk, zs, ch, "Initial(CH)" + ("+0-RTT" if zs is not None else ""))
     # ---- server flight: Initial(SH) + Handshake(EE..Fin) coalesced
     p_i = Q.long_packet(si, "initial", c_cid, s_cid, nxt(S, "initial"), pn_len("s_init"), cat(ack(0), crypto(0, sh)))
